@@ -98,3 +98,16 @@ def all_edges(p):
             e += own[a]
         alle[fid] = e
     return own, alle
+
+
+def effective_override(p, t, sid):
+    """scenario-specific values of task node `t` in scenario `sid`: own, else inherited from the nearest
+    enclosing scenario (nested scenarios inherit from their parent scenario)"""
+    par = dict(scenario_ids(p))
+    out = {}
+    x = sid
+    while x is not None:
+        for k, v in ((t.get("sc") or {}).get(x, {})).items():
+            out.setdefault(k, v)
+        x = par.get(x)
+    return out
